@@ -11,6 +11,102 @@ from rustsrc import (ExtractError, fn_body, enum_variants, first_match, match_ar
                      lean_str, matching)
 
 
+def neg_literal_arms(fm):
+    """The guarded `Literal` arms of `get_expression_precedence` (fix e7611e2: a negative literal binds like a prefix
+    operation): returns ([literal kinds], precedence) — ([], None) when there are none.  Every guarded arm must be a
+    single `ast::Expression::Literal(<kinds>)` pattern whose guard is `*v < 0` (integers) or `v.is_sign_negative()`
+    (floats) and whose result is a number; anything else is refused."""
+    body = fn_body(fm, "get_expression_precedence")
+    _, arms_text, _ = first_match(body, r'^expr$')
+    kinds, precs = [], set()
+    seen_plain_literal = False
+    for pats, guard, result in match_arms(arms_text):
+        if guard is None:
+            if any(p.startswith("ast::Expression::Literal(") for p in pats):
+                seen_plain_literal = True
+            continue
+        if seen_plain_literal:
+            raise ExtractError("get_expression_precedence: a guarded arm after the unguarded Literal arm is dead code")
+        if len(pats) != 1:
+            raise ExtractError(f"get_expression_precedence: guarded arm with alternatives {pats!r}")
+        m = re.fullmatch(r'ast::Expression::Literal\(\s*(.*?),?\s*\)', normws(pats[0]))
+        if not m:
+            raise ExtractError(f"get_expression_precedence: guarded pattern {pats[0]!r} unsupported")
+        ks = []
+        for alt in split_top(m.group(1), '|'):
+            am = re.fullmatch(r'ast::Literal::([A-Za-z0-9]+)\(v\)', normws(alt))
+            if not am:
+                raise ExtractError(f"get_expression_precedence: guarded literal pattern {alt!r} unsupported")
+            ks.append(am.group(1))
+        g = normws(guard)
+        if g == "*v < 0":
+            if any(not k.startswith("Int") for k in ks):
+                raise ExtractError(f"get_expression_precedence: guard `*v < 0` on {ks}")
+        elif g == "v.is_sign_negative()":
+            if any(not k.startswith("Float") for k in ks):
+                raise ExtractError(f"get_expression_precedence: guard `is_sign_negative` on {ks}")
+        else:
+            raise ExtractError(f"get_expression_precedence: guard {guard!r} unsupported")
+        rm = re.fullmatch(r'\{?\s*(\d+)\s*\}?', result)
+        if not rm:
+            raise ExtractError(f"get_expression_precedence: guarded result {result!r} unsupported")
+        precs.add(int(rm.group(1)))
+        kinds += ks
+    if len(precs) > 1:
+        raise ExtractError(f"get_expression_precedence: negative literals have several precedences {sorted(precs)}")
+    if len(set(kinds)) != len(kinds):
+        raise ExtractError("get_expression_precedence: a literal kind has two guarded arms")
+    return kinds, (precs.pop() if precs else None)
+
+
+def member_arm(fm):
+    """Body of the `Member` arm of `format_subexpression` and the literal kinds of its `is_int_literal` test (fix 07e6b1c:
+    `(1).x`): returns (arm text, [kinds parenthesised always], [kinds parenthesised when `v >= 0`])."""
+    body = fn_body(fm, "format_subexpression")
+    i = body.find("ast::Expression::Member(expr, name) => {")
+    if i < 0:
+        raise ExtractError("format_subexpression: Member arm not found")
+    j = matching(body, body.index("{", i))
+    arm = body[i:j + 1]
+    always, nonneg = [], []
+    m = re.search(r'let\s+is_int_literal\s*=\s*match\s+expr\.node\s*\{', arm)
+    if m:
+        k = matching(arm, m.end() - 1)
+        dflt = False
+        for pats, guard, result in match_arms(arm[m.end():k]):
+            if guard is not None:
+                raise ExtractError("format_subexpression: is_int_literal has a guarded arm")
+            if pats == ['_']:
+                if result != 'false':
+                    raise ExtractError("format_subexpression: is_int_literal default is not false")
+                dflt = True
+                continue
+            if len(pats) != 1:
+                raise ExtractError(f"format_subexpression: is_int_literal pattern {pats!r}")
+            pm = re.fullmatch(r'ast::Expression::Literal\(\s*(.*?),?\s*\)', normws(pats[0]))
+            if not pm:
+                raise ExtractError(f"format_subexpression: is_int_literal pattern {pats[0]!r}")
+            for alt in split_top(pm.group(1), '|'):
+                am = re.fullmatch(r'ast::Literal::([A-Za-z0-9]+)\((_|v)\)', normws(alt))
+                if not am:
+                    raise ExtractError(f"format_subexpression: is_int_literal literal pattern {alt!r}")
+                if result == 'true':
+                    always.append(am.group(1))
+                elif normws(result) == 'v >= 0' and am.group(2) == 'v':
+                    nonneg.append(am.group(1))
+                else:
+                    raise ExtractError(f"format_subexpression: is_int_literal result {result!r}")
+        if not dflt:
+            raise ExtractError("format_subexpression: is_int_literal has no default arm")
+        tail = normws(arm[k:])
+        if not re.search(r"if is_int_literal \{ output\.push\('\('\); \} format_subexpression\(expr, prec, OperatorSide::[A-Za-z]+, output, context\)\?; "
+                         r"if is_int_literal \{ output\.push\('\)'\); \} output\.push\('\.'\);", tail):
+            raise ExtractError("format_subexpression: Member arm no longer wraps the object in ( ) exactly when is_int_literal")
+    elif "output.push('(')" in arm:
+        raise ExtractError("format_subexpression: Member arm prints a parenthesis the translator does not know")
+    return arm, always, nonneg
+
+
 def register(gen, T):
     # ------------------------------------------------------------------------------------------ FmtTables
     @gen("FmtTables")
@@ -32,9 +128,10 @@ def register(gen, T):
         _, arms_text, _ = first_match(body, r'^expr$')
         node_prec = {}
         un_prec, bin_prec = {}, {}
+        neg_literal_arms(fm)   # shape of the guarded `Literal` arms (their content goes to Gen.ParseTables, next to `LitKind`)
         for pats, guard, result in match_arms(arms_text):
             if guard is not None:
-                raise ExtractError("get_expression_precedence: guard unsupported")
+                continue
             kinds = []
             for p in pats:
                 m = re.match(r'ast::Expression::([A-Za-z]+)', p)
@@ -168,10 +265,11 @@ def register(gen, T):
             "ternFalse": r'format_subexpression\(expr_false,\s*prec,\s*OperatorSide::([A-Za-z]+)',
             "subObject": r'format_subexpression\(expr_object,\s*prec,\s*OperatorSide::([A-Za-z]+)',
             "subIndex": r'format_subexpression\(expr_index,\s*prec,\s*OperatorSide::([A-Za-z]+)',
-            "memObject": r'ast::Expression::Member\(expr, name\) => \{\s*format_subexpression\(expr,\s*prec,\s*OperatorSide::([A-Za-z]+)',
+            "memObject": r'format_subexpression\(expr,\s*prec,\s*OperatorSide::([A-Za-z]+)',
         }
+        marm = member_arm(fm)[0]
         for nm, rx in child_sites.items():
-            cm = re.search(rx, body)
+            cm = re.search(rx, marm if nm == "memObject" else body)
             if not cm:
                 raise ExtractError(f"format_subexpression: child site {nm} not found")
             out.append(f"def {nm}Side : Side := .{cm.group(1)}\n")
@@ -284,7 +382,7 @@ def register(gen, T):
         tokens_rs = T.src("text/src/tokens.rs")
         ex = T.src("parser/src/parser/expressions.rs")
         lx = T.src("preprocess/src/lexer.rs")
-        out = ["-- GENERATED by tools/translate.py from text/src/tokens.rs, preprocess/src/lexer.rs, parser/src/parser/expressions.rs -- do not edit\n"
+        out = ["-- GENERATED by tools/translate.py from text/src/tokens.rs, preprocess/src/lexer.rs, parser/src/parser/expressions.rs, formatter/src/formatter.rs -- do not edit\n"
                "import RsslVerif.Gen.FmtTables\nnamespace RsslVerif.Gen.ParseTables\nopen RsslVerif.Gen.FmtTables\n\n"]
         variants = enum_variants(tokens_rs, "Token")
         plain = [v for v, rest in variants if rest == ""]
@@ -344,6 +442,25 @@ def register(gen, T):
                    "".join(f"  | {k}\n" for k in lit_kinds) + "  deriving DecidableEq, Repr, Inhabited\n\n"
                    "/-- a literal value: integers `±mag`; floats: sign bit and the remaining bits of the IEEE pattern; bool 0/1 -/\n"
                    "structure Lit where\n  kind : LitKind\n  neg : Bool\n  mag : Nat\n  deriving DecidableEq, Repr, Inhabited\n\n")
+        # literal-dependent rules of the formatter (they need `LitKind`, hence here and not in Gen.FmtTables)
+        fm = T.src("formatter/src/formatter.rs")
+        nkinds, nprec = neg_literal_arms(fm)
+        for k in nkinds:
+            if k not in lit_kinds:
+                raise ExtractError(f"get_expression_precedence: unknown literal kind {k}")
+        out.append("/-- `get_expression_precedence`: a literal of one of these kinds whose value is negative (floats: sign bit set) has the\n"
+                   "precedence `precNegLiteral` — it is printed with a sign and binds like a prefix operation (e7611e2); every other literal\n"
+                   "has `precLiteral` -/\n"
+                   "def negLiteralKinds : List LitKind := " + T.lean_list(f".{k}" for k in nkinds) + "\n"
+                   f"def precNegLiteral : Nat := {nprec if nprec is not None else 'precLiteral'}\n\n")
+        _, malways, mnonneg = member_arm(fm)
+        for k in malways + mnonneg:
+            if k not in lit_kinds:
+                raise ExtractError(f"format_subexpression (Member): unknown literal kind {k}")
+        out.append("/-- `format_subexpression`, `Member` arm: an object that is a literal of these kinds is printed in parentheses — `(1).x`,\n"
+                   "because `1.x` would lex as a float (07e6b1c); the second list only when the value is not negative -/\n"
+                   "def memParenLiteralKinds : List LitKind := " + T.lean_list(f".{k}" for k in malways) + "\n"
+                   "def memParenNonNegLiteralKinds : List LitKind := " + T.lean_list(f".{k}" for k in mnonneg) + "\n\n")
         # token type of the model
         out.append("/-- tokens of the model: a (scoped) identifier is one abstract token named by its text; a literal token carries its value -/\n"
                    "inductive Tok where\n  | id (n : String)\n  | lit (l : Lit)\n  | p (p : Punct)\n  | lt (followedByToken : Bool)\n"
@@ -646,11 +763,68 @@ def register(gen, T):
         if not ca:
             raise ExtractError("format_subexpression: Call arm no longer prints object, template arguments, `(`")
         eot = normws(fn_body(fm, "format_expression_or_type"))
-        if "ast::ExpressionOrType::Expression(expr) | ast::ExpressionOrType::Either(expr, _) => { format_expression(expr, output, context) }" not in eot or \
-           "ast::ExpressionOrType::Type(ty) => format_type_id(ty, output, context)" not in eot:
+        em = re.fullmatch(r"match value \{ ast::ExpressionOrType::Expression\(expr\) \| ast::ExpressionOrType::Either\(expr, _\) => \{ "
+                          r"(format_expression\(expr, output, context\)|format_subexpression\(expr, (\d+), OperatorSide::([A-Za-z]+), output, context\)) \} "
+                          r"ast::ExpressionOrType::Type\(ty\) => format_type_id\(ty, output, context\), \}", eot)
+        if not em:
             raise ExtractError("format_expression_or_type changed shape")
-        out.append("/-- template arguments and the operand of sizeof are printed with `format_expression` (never parenthesised) or `format_type_id` -/\n"
-                   "def eotExprPrec : Nat := topPrec\ndef eotExprSide : Side := topSide\n\n")
+        if em.group(2) is None:
+            out.append("/-- template arguments and the operand of sizeof are printed with `format_expression` (never parenthesised) or `format_type_id` -/\n"
+                       "def eotExprPrec : Nat := topPrec\ndef eotExprSide : Side := topSide\n\n")
+        else:
+            out.append("/-- an expression that is a template argument or the operand of sizeof is printed with\n"
+                       "`format_subexpression(expr, eotExprPrec, eotExprSide)` (e8e0be6: the shift operators and everything that binds less tightly\n"
+                       "are parenthesised — the position is read under `Terminator::TypeList`); a type with `format_type_id` -/\n"
+                       f"def eotExprPrec : Nat := {em.group(2)}\ndef eotExprSide : Side := .{em.group(3)}\n\n")
+        # expression positions of lists outside format_subexpression (2a6da39): attribute arguments, default values, enum values
+        def site(fname, rx, what):
+            b = normws(fn_body(fm, fname))
+            ms = re.findall(rx, b)
+            if not ms:
+                if "format_expression(" in b:
+                    return None
+                raise ExtractError(f"{fname}: {what} is printed in an unknown way")
+            if len(set(ms)) != 1:
+                raise ExtractError(f"{fname}: {what} is printed in several ways {sorted(set(ms))}")
+            return ms[0]
+        sites = [
+            ("attrArg", "format_attribute", r"format_subexpression\((?:expr|last), (\d+), OperatorSide::([A-Za-z]+), output, context\)\?;", "an attribute argument"),
+            ("paramDefault", "format_function_param", r'output\.push_str\(" = "\); format_subexpression\(default_expr, (\d+), OperatorSide::([A-Za-z]+), output, context\)\?;', "a default value"),
+            ("enumValue", "format_enum", r'output\.push_str\(" = "\); format_subexpression\(expr, (\d+), OperatorSide::([A-Za-z]+), output, context\)\?;', "an enum value"),
+        ]
+        for nm, fname, rx, what in sites:
+            r = site(fname, rx, what)
+            if nm == "attrArg" and r is not None and len(re.findall(rx, normws(fn_body(fm, fname)))) != 2:
+                raise ExtractError("format_attribute: not every argument is printed with format_subexpression")
+            if r is None:
+                out.append(f"/-- {what}: printed with `format_expression` -/\ndef {nm}Prec : Nat := topPrec\ndef {nm}Side : Side := topSide\n")
+            else:
+                out.append(f"/-- {what}: `format_subexpression(expr, {nm}Prec, {nm}Side)` (2a6da39) -/\n"
+                           f"def {nm}Prec : Nat := {r[0]}\ndef {nm}Side : Side := .{r[1]}\n")
+        out.append("\n")
+        # order of template parameter list and attributes in format_function (df99070); base types in format_struct (2e907a1)
+        ff = normws(fn_body(fm, "format_function"))
+        it = ff.find("format_template_param_list(&def.template_params, output, context)?;")
+        ia = ff.find("for attribute in &def.attributes {")
+        ir = ff.find("format_type(&def.returntype.return_type, output, context)?;")
+        if min(it, ia, ir) < 0 or not (max(it, ia) < ir):
+            raise ExtractError("format_function: template parameters / attributes / return type not found in front")
+        out.append("/-- `format_function` prints the template parameter list in front of the attributes (the order `parse_function_definition` reads) -/\n"
+                   f"def templateParamsBeforeAttributes : Bool := {'true' if it < ia else 'false'}\n")
+        pf = normws(fn_body(T.src("parser/src/parser/functions.rs"), "parse_function_definition"))
+        jt = pf.find("parse_template_params(input)?")
+        ja = pf.find("parse_multiple(parse_attribute)(input)?")
+        if min(jt, ja) < 0:
+            raise ExtractError("parse_function_definition: template parameters / attributes not found")
+        out.append(f"def parserReadsTemplateParamsFirst : Bool := {'true' if jt < ja else 'false'}\n")
+        fs = normws(fn_body(fm, "format_struct"))
+        bm = re.search(r'output\.push_str\(&def\.name\); (if let Some\(\(first, rest\)\) = def\.base_types\.split_first\(\) \{ output\.push_str\(" : "\); '
+                       r'format_type\(first, output, context\)\?; for base_type in rest \{ output\.push_str\(", "\); format_type\(base_type, output, context\)\?; \} \} )?'
+                       r"context\.new_line\(output\); output\.push\('\{'\);", fs)
+        if not bm or ("base_types" in fs and not bm.group(1)):
+            raise ExtractError("format_struct: the part between the name and `{` changed shape")
+        out.append("/-- `format_struct` prints ` : Base, Base` between the name and the opening brace -/\n"
+                   f"def structPrintsBaseTypes : Bool := {'true' if bm.group(1) else 'false'}\n\n")
         # expr_p2's order of alternatives
         ex = T.src("parser/src/parser/expressions.rs")
         p2 = normws(fn_body(ex, "expr_p2"))
